@@ -21,9 +21,13 @@ WEIGHTS = ["none", "ones", "positive", "negative", "mixed"]
 
 
 def subsets(n):
+    """every subset of modes; subsets of size >= 2 also in descending (unsorted) order, as a caller may list them"""
     out = []
     for k in range(0, n + 1):
-        out += [list(c) for c in itertools.combinations(range(n), k)]
+        for c in itertools.combinations(range(n), k):
+            out.append(list(c))
+            if k >= 2:
+                out.append(list(reversed(c)))
     return out
 
 
